@@ -72,7 +72,7 @@ def strategy_(draw, tier):
                                              "envelope-decrypt", "cli", "cli-existing-output", "cli-wrong-key", "vmtar-list", "vmtar-extract", "keystore",
                                              "vmtar-modes", "vhdx-abs-parent", "hyperv-dirty", "rw-handles", "envelope-decrypt-big", "cli-big",
                                              "cli-output-dir", "cli-output-evidence-dir", "cli-relative-output", "hyperv-fileobject",
-                                             "vmdk-rw-descriptor-handle", "vmtar-empty", "vmtar-odd-handles", "hdd-backup-descriptor", "cli-decomposed-name", "qcow2-bad-deflate"]),
+                                             "vmdk-rw-descriptor-handle", "vmtar-empty", "vmtar-odd-handles", "hdd-backup-descriptor", "cli-decomposed-name", "qcow2-bad-deflate", "vmdk-missing-parent"]),
                             min_size=2, max_size=10))
         return {"workload": w, "ops": ops, "n": draw(st.integers(0, 1 << 20))}
     mod = importlib.import_module(f"hv.props.{w.lower()}")
@@ -134,6 +134,12 @@ def build_evidence(d, n):
         f.write(bvmdk.descriptor_text({"parent_cid": "11223344", "parent_hint": "base/base.vmdk", "extents": [
             {"sectors": 40, "type": "SPARSE", "file": "delta-s000.vmdk"}, {"sectors": 24, "type": "VMFSSPARSE", "file": "delta-s001.vmdk"}]}))
     info["vmdk"] = os.path.join(d, "vm", "delta.vmdk")
+    # delta descriptors whose parent is not where the hint says: spelled in another case, or never acquired
+    for nm, hint in (("orphan1.vmdk", "BASE/Base.VMDK"), ("orphan2.vmdk", "gone/missing.vmdk")):
+        with open(os.path.join(d, "vm", nm), "w") as f:
+            f.write(bvmdk.descriptor_text({"parent_cid": "11223344", "parent_hint": hint, "extents": [
+                {"sectors": 40, "type": "SPARSE", "file": "delta-s000.vmdk"}]}))
+    info["vmdk-orphans"] = [os.path.join(d, "vm", "orphan1.vmdk"), os.path.join(d, "vm", "orphan2.vmdk")]
     # a large preallocated FLAT extent (sparse on disk, >= 128 MiB)
     big = 130 << 20
     with open(os.path.join(d, "vm", "big-flat.vmdk"), "wb") as f:
@@ -362,6 +368,12 @@ def run_scenario(spec, out):
                                 q.seek(off)
                                 q.read(512)
                             except Exception:  # noqa: BLE001 - failing to inflate is fine
+                                pass
+                    elif op == "vmdk-missing-parent":
+                        for pth in info["vmdk-orphans"]:
+                            try:
+                                opened.append(VMDK(Path(pth)))
+                            except Exception:  # noqa: BLE001 - refusing is what is expected; probing the directory by writing is not
                                 pass
                     elif op == "hdd-backup-descriptor":
                         for hb in info["hdd-broken"]:
